@@ -5,14 +5,25 @@
 //   - boundSwitch: for GreaterThan/GreaterOrEqual/LessThan/LessOrEqual: rounding function applied to the key
 //     and the column range built for Overflow / Underflow / in range (go/ast)
 //   - rangeTypeTable: MySQLRangeColumnExpr.Type() on all 25 pairs of cut kinds (run time)
+//   - andNilTests: the `== nil` tests of rangeBuildAnd (the nil collection is its "no OR group applied yet" sentinel) and
+//     what each of them does (go/ast)
+//   - intersectTable: MySQLRangeCollection.Intersect on a grid of one-column collections — disjoint, overlapping, nested,
+//     with NULL, empty — with the result and whether it is nil (run time)
 //
 // run:
-//   (a) unit level: the real MySQLIndexBuilder on conjunctions of leaf predicates over 1-3 integer columns
-//       (TINYINT, TINYINT UNSIGNED, BIGINT; integer, decimal and out-of-type-range literals) vs the Lean Impl model,
-//       plus a model-free oracle: a key tuple is in the produced ranges iff every predicate is TRUE on it;
-//   (b) the backend's range → filter expression (expression.NewRangeFilterExpr) evaluated on column values vs
-//       the model and vs range membership;
-//   (c) engine level (property oracle): the same WHERE on an indexed table and on an index-free copy.
+//
+//	(a) unit level: the real MySQLIndexBuilder on conjunctions of leaf predicates over 1-3 integer columns
+//	    (TINYINT, TINYINT UNSIGNED, BIGINT; integer, decimal and out-of-type-range literals) vs the Lean Impl model,
+//	    plus a model-free oracle: a key tuple is in the produced ranges iff every predicate is TRUE on it;
+//	(b) the backend's range → filter expression (expression.NewRangeFilterExpr) evaluated on column values vs
+//	    the model and vs range membership;
+//	(c) engine level (property oracle): the same WHERE on an indexed table and on an index-free copy;
+//	(d) unit level: the analyzer's own filter → range collection path (indexCoster.buildRoot,
+//	    indexScanRangeBuilder.buildRangeCollection: rangeBuildAnd / rangeBuildOr / MySQLRangeCollection.Intersect, through the
+//	    overlay accessor analyzer.VerifC03ScanRanges) on AND / OR trees of leaf predicates vs the Lean Impl model
+//	    (Gms/Model/IndexScan.lean), plus the model-free oracle: a key tuple is in the ranges iff the filter is TRUE on it;
+//	(e) engine level: conjunctions of OR groups on an index prefix (mutually exclusive, adjacent, overlapping, nested
+//	    groups, OR of ANDs) plus plain comparisons, indexed table vs index-free copy.
 package main
 
 import (
@@ -27,6 +38,7 @@ import (
 	"github.com/cockroachdb/apd/v3"
 
 	"github.com/dolthub/go-mysql-server/sql"
+	"github.com/dolthub/go-mysql-server/sql/analyzer"
 	"github.com/dolthub/go-mysql-server/sql/expression"
 	"github.com/dolthub/go-mysql-server/sql/types"
 	"github.com/dolthub/go-mysql-server/verifharness/hx"
@@ -266,7 +278,7 @@ var colTypes = []colType{
 // Facts
 
 func extract(a hx.ExtractArgs) error {
-	lf := hx.NewLeanFile("Gms.Generated.C03", "sql/analyzer/costed_index_scan.go (rangeBuildDefaultLeaf)", "sql/index_builder.go (bound switches)", "sql/range_column_expr.go (Type, run-time table)")
+	lf := hx.NewLeanFile("Gms.Generated.C03", "sql/analyzer/costed_index_scan.go (rangeBuildDefaultLeaf, rangeBuildAnd)", "sql/index_builder.go (bound switches)", "sql/range_column_expr.go (Type, run-time table)", "sql/range_mysql.go (MySQLRangeCollection.Intersect, run-time table)")
 
 	// 1. IndexScanOp ↦ builder calls
 	src, err := hx.ParseSrc(a.Repo, "sql/analyzer/costed_index_scan.go")
@@ -400,7 +412,109 @@ func extract(a hx.ExtractArgs) error {
 			rows = append(rows, fmt.Sprintf("  (%d, %d, %s)", i, j, hx.LeanString(n)))
 		}
 	}
-	lf.Raw("/-- (kind of lower cut, kind of upper cut, real `Type()`); kinds: 0 BelowNull, 1 AboveNull, 2 Below, 3 Above, 4 AboveAll -/\ndef rangeTypeTable : List (Nat × Nat × String) := [\n" + strings.Join(rows, ",\n") + "]\n")
+	lf.Raw("/-- (kind of lower cut, kind of upper cut, real `Type()`); kinds: 0 BelowNull, 1 AboveNull, 2 Below, 3 Above, 4 AboveAll -/\ndef rangeTypeTable : List (Nat × Nat × String) := [\n" + strings.Join(rows, ",\n") + "]\n\n")
+
+	// 4. rangeBuildAnd: the nil tests on the accumulated collection `ret` / on an OR group's `ranges`
+	fa, err := src.Func("indexScanRangeBuilder", "rangeBuildAnd")
+	if err != nil {
+		return err
+	}
+	rows = nil
+	ast.Inspect(fa.Body, func(n ast.Node) bool {
+		ifs, ok := n.(*ast.IfStmt)
+		if !ok {
+			return true
+		}
+		be, ok := ifs.Cond.(*ast.BinaryExpr)
+		if !ok || be.Op.String() != "==" || src.Text(be.Y) != "nil" {
+			return true
+		}
+		if x := src.Text(be.X); x != "ret" && x != "ranges" {
+			return true
+		}
+		var stmts []string
+		for _, st := range ifs.Body.List {
+			stmts = append(stmts, strings.Join(strings.Fields(src.Text(st)), " "))
+		}
+		rows = append(rows, fmt.Sprintf("  (%s, %s)", hx.LeanString(src.Text(ifs.Cond)), hx.LeanString(strings.Join(stmts, "; "))))
+		return true
+	})
+	if len(rows) == 0 {
+		return fmt.Errorf("rangeBuildAnd: no `ret == nil` / `ranges == nil` test found")
+	}
+	lf.Raw("/-- the `== nil` tests of rangeBuildAnd on `ret` (accumulated collection) and `ranges` (one OR group), in source order ↦ body -/\ndef andNilTests : List (String × String) := [\n" + strings.Join(rows, ",\n") + "]\n\n")
+
+	// 5. MySQLRangeCollection.Intersect on a grid of one-column collections, from the compiled code
+	ctx := sql.NewEmptyContext()
+	closed := func(l, u int64) sql.MySQLRange {
+		return sql.MySQLRange{sql.ClosedRangeColumnExpr(l, u, types.Int64)}
+	}
+	grid := []sql.MySQLRangeCollection{
+		{closed(1, 1), closed(2, 2)},
+		{closed(5, 5), closed(6, 6)},
+		{closed(1, 3)},
+		{closed(2, 5), closed(7, 9)},
+		{sql.MySQLRange{sql.NullRangeColumnExpr(types.Int64)}, sql.MySQLRange{sql.LessThanRangeColumnExpr(int64(2), types.Int64)}},
+		{sql.MySQLRange{sql.EmptyRangeColumnExpr(types.Int64)}},
+	}
+	leanCut := func(c sql.MySQLRangeCut) (string, error) {
+		switch c := c.(type) {
+		case sql.BelowNull:
+			return "(0, 0)", nil
+		case sql.AboveNull:
+			return "(1, 0)", nil
+		case sql.Below:
+			return fmt.Sprintf("(2, %s)", hx.LeanInt(keyOf(c.Key).Int64())), nil
+		case sql.Above:
+			return fmt.Sprintf("(3, %s)", hx.LeanInt(keyOf(c.Key).Int64())), nil
+		case sql.AboveAll:
+			return "(4, 0)", nil
+		}
+		return "", fmt.Errorf("unexpected cut %T", c)
+	}
+	leanColl := func(rs sql.MySQLRangeCollection) (string, error) {
+		var parts []string
+		for _, r := range rs {
+			var cols []string
+			for _, c := range r {
+				lo, err := leanCut(c.LowerBound)
+				if err != nil {
+					return "", err
+				}
+				hi, err := leanCut(c.UpperBound)
+				if err != nil {
+					return "", err
+				}
+				cols = append(cols, "("+lo+", "+hi+")")
+			}
+			parts = append(parts, "["+strings.Join(cols, ", ")+"]")
+		}
+		return "[" + strings.Join(parts, ", ") + "]", nil
+	}
+	rows = nil
+	for _, xs := range grid {
+		for _, ys := range grid {
+			var res sql.MySQLRangeCollection
+			var ierr error
+			if p := hx.Safe(func() { res, ierr = xs.Intersect(ctx, ys) }); p != "" || ierr != nil {
+				return fmt.Errorf("MySQLRangeCollection.Intersect(%s, %s) failed: %s %v", rangesStr(xs), rangesStr(ys), p, ierr)
+			}
+			lx, err := leanColl(xs)
+			if err != nil {
+				return err
+			}
+			ly, err := leanColl(ys)
+			if err != nil {
+				return err
+			}
+			lr, err := leanColl(res)
+			if err != nil {
+				return err
+			}
+			rows = append(rows, fmt.Sprintf("  (%s, %s, %v, %s)", lx, ly, res == nil, lr))
+		}
+	}
+	lf.Raw("/-- (xs, ys, `xs.Intersect(ys) == nil`, xs.Intersect(ys)) on one-column collections; a column range is (lower cut, upper cut), a cut is\n(kind, key) with kinds 0 BelowNull, 1 AboveNull, 2 Below, 3 Above, 4 AboveAll -/\ndef intersectTable : List (List (List ((Nat × Int) × (Nat × Int))) × List (List ((Nat × Int) × (Nat × Int))) × Bool × List (List ((Nat × Int) × (Nat × Int)))) := [\n" + strings.Join(rows, ",\n") + "]\n")
 	return lf.Write(a.Out)
 }
 
@@ -704,6 +818,339 @@ func (h *harness) filterCases() {
 }
 
 // ---------------------------------------------------------------------------------------------
+// (d) the analyzer's filter → range collection path on AND / OR trees
+
+// expr: a filter tree; leaf != nil, or op ("and" / "or") with two children
+type expr struct {
+	op   string
+	l, r *expr
+	leaf *pred
+}
+
+func (e *expr) String() string {
+	if e.leaf != nil {
+		return e.leaf.String()
+	}
+	return hx.List(e.op, e.l.String(), e.r.String())
+}
+
+func (e *expr) holds(tup []*big.Int) bool {
+	switch {
+	case e.leaf != nil:
+		return e.leaf.holds(tup[e.leaf.col])
+	case e.op == "and":
+		return e.l.holds(tup) && e.r.holds(tup)
+	}
+	return e.l.holds(tup) || e.r.holds(tup)
+}
+
+func (e *expr) leaves(acc []pred) []pred {
+	if e.leaf != nil {
+		return append(acc, *e.leaf)
+	}
+	return e.r.leaves(e.l.leaves(acc))
+}
+
+// shape features of the tree (distribution → evidence)
+func (e *expr) orGroupsUnderAnd() int {
+	if e.leaf != nil || e.op == "or" {
+		return 0
+	}
+	n := 0
+	for _, c := range []*expr{e.l, e.r} {
+		if c.leaf == nil && c.op == "or" {
+			n++
+		} else {
+			n += c.orGroupsUnderAnd()
+		}
+	}
+	return n
+}
+
+func colName(i int) string { return fmt.Sprintf("c%d", i) }
+
+// sqlExpr: the expression the planner hands to the index coster (GetField on the left, literal on the right)
+func (e *expr) sqlExpr(ct colType) sql.Expression {
+	if e.leaf == nil {
+		if e.op == "and" {
+			return expression.NewAnd(e.l.sqlExpr(ct), e.r.sqlExpr(ct))
+		}
+		return expression.NewOr(e.l.sqlExpr(ct), e.r.sqlExpr(ct))
+	}
+	p := e.leaf
+	gf := expression.NewGetField(p.col, ct.typ, colName(p.col), true)
+	litE := func(l lit) sql.Expression {
+		v, t := l.goValue()
+		return expression.NewLiteral(v, t)
+	}
+	tuple := func() sql.Expression {
+		es := make([]sql.Expression, len(p.ks))
+		for i, k := range p.ks {
+			es[i] = litE(k)
+		}
+		return expression.NewTuple(es...)
+	}
+	switch p.op {
+	case "eq":
+		return expression.NewEquals(gf, litE(p.ks[0]))
+	case "neq":
+		return expression.NewNot(expression.NewEquals(gf, litE(p.ks[0])))
+	case "in":
+		return expression.NewInTuple(gf, tuple())
+	case "notin":
+		return expression.NewNot(expression.NewInTuple(gf, tuple()))
+	case "gt":
+		return expression.NewGreaterThan(gf, litE(p.ks[0]))
+	case "ge":
+		return expression.NewGreaterThanOrEqual(gf, litE(p.ks[0]))
+	case "lt":
+		return expression.NewLessThan(gf, litE(p.ks[0]))
+	case "le":
+		return expression.NewLessThanOrEqual(gf, litE(p.ks[0]))
+	case "isnull":
+		return expression.NewIsNull(gf)
+	case "isnotnull":
+		return expression.NewNot(expression.NewIsNull(gf))
+	}
+	panic(p.op)
+}
+
+// scanIndex: the fake index as the analyzer addresses it (`<table>.<column>` expressions)
+type scanIndex struct{ fakeIndex }
+
+func (f scanIndex) Expressions() []string {
+	out := make([]string, f.n)
+	for i := range out {
+		out[i] = "t." + colName(i)
+	}
+	return out
+}
+func (f scanIndex) ColumnExpressionTypes(*sql.Context) []sql.ColumnExpressionType {
+	out := make([]sql.ColumnExpressionType, f.n)
+	for i, e := range f.Expressions() {
+		out[i] = sql.ColumnExpressionType{Expression: e, Type: f.typ}
+	}
+	return out
+}
+
+func (h *harness) scanCase(ct colType, ncols int, e *expr) {
+	idx := scanIndex{fakeIndex{n: ncols, typ: ct.typ}}
+	var rs sql.MySQLRangeCollection
+	var ok bool
+	var err error
+	p := hx.Safe(func() { _, rs, _, ok, err = analyzer.VerifC03ScanRanges(h.ctx, idx, "t", e.sqlExpr(ct)) })
+	obs := rangesStr(rs)
+	switch {
+	case p != "":
+		obs = "crash"
+	case !ok:
+		obs = "no-tree"
+	case err != nil && strings.Contains(err.Error(), "overlapping ranges"):
+		obs = "err:overlap"
+	case err != nil && strings.Contains(err.Error(), "invalid index to merge"):
+		obs = "err:merge"
+	case err != nil:
+		obs = "err"
+	}
+	payload := hx.List("scan", ct.min.String(), ct.max.String(), strconv.Itoa(ncols), e.String())
+	ps := e.leaves(nil)
+	pts := make([][]*big.Int, ncols)
+	total := 1
+	for c := range pts {
+		pts[c] = testPoints(ct, ps, c)
+		total *= len(pts[c])
+	}
+	sat, unsat := 0, 0
+	bad := ""
+	if p == "" && ok && err == nil && total <= 20000 {
+		tup := make([]*big.Int, ncols)
+		var rec func(i int)
+		rec = func(i int) {
+			if i == ncols {
+				want := e.holds(tup)
+				n := 0
+				for _, r := range rs {
+					in := len(r) == ncols
+					for c := 0; in && c < ncols; c++ {
+						in = colMember(r[c], tup[c])
+					}
+					if in {
+						n++
+					}
+				}
+				if want {
+					sat++
+				} else {
+					unsat++
+				}
+				// the collection went through RemoveOverlappingRanges: a tuple lies in at most one range
+				if (want && n != 1) || (!want && n != 0) {
+					if bad == "" {
+						bad = fmt.Sprintf("key tuple %v: the filter is %v, the tuple lies in %d of the ranges %s", tupStr(tup), want, n, obs)
+					}
+				}
+				return
+			}
+			for _, x := range pts[i] {
+				tup[i] = x
+				rec(i + 1)
+			}
+		}
+		rec(0)
+	}
+	id := h.out.Case(payload, obs, sat > 0 && unsat > 0)
+	h.out.Stat("scan:" + ct.name + ":" + strconv.Itoa(ncols) + "col")
+	h.out.Stat(fmt.Sprintf("scan:or-groups-under-and:%d", e.orGroupsUnderAnd()))
+	if sat == 0 && p == "" && ok && err == nil {
+		h.out.Stat("scan:unsatisfiable-filter")
+	}
+	switch {
+	case p != "" || !ok || obs == "err" || obs == "err:merge":
+		h.out.OracleFail(id, "-", fmt.Sprintf("the analyzer failed to build ranges for %s: %s %s %v", payload, obs, p, err))
+	case obs == "err:overlap":
+		// RemoveOverlappingRanges rejected a well-formed input: C46's listed finding ror_tree_missed_connection (the
+		// heap model reproduces it; the driver answers `?` as Spec). Not a C03 region: kept out of the oracle.
+		h.out.Stat("scan:err-overlap(C46)")
+	case len(rs) == 0:
+		h.out.OracleFail(id, "-", fmt.Sprintf("buildRangeCollection returned a nil / empty collection for %s (integrators need at least one range)", payload))
+	case bad != "":
+		h.out.OracleFail(id, "-", bad)
+	}
+}
+
+// litSmall: mostly small integers (so that OR groups are disjoint, adjacent and overlapping with comparable frequency)
+func (h *harness) litSmall(ct colType) lit {
+	r := h.r
+	switch r.Intn(10) {
+	case 0, 1:
+		return h.litNear(ct)
+	case 2:
+		return lit{coeff: new(big.Int).Add(ct.min, big.NewInt(int64(r.Range(0, 2))))}
+	case 3:
+		return lit{coeff: new(big.Int).Sub(ct.max, big.NewInt(int64(r.Range(0, 2))))}
+	}
+	return lit{coeff: big.NewInt(int64(r.Range(-1, 6)))}
+}
+
+func (h *harness) leafExpr(ct colType, ncols int, col int) *expr {
+	r := h.r
+	ops := []string{"eq", "eq", "eq", "in", "gt", "ge", "lt", "le", "neq", "notin", "isnull", "isnotnull", "gt", "lt"}
+	p := pred{op: hx.Pick(r, ops), col: col}
+	switch p.op {
+	case "isnull", "isnotnull":
+	case "in", "notin":
+		for k := 1 + r.Intn(3); k > 0; k-- {
+			p.ks = append(p.ks, h.litSmall(ct))
+		}
+	default:
+		p.ks = []lit{h.litSmall(ct)}
+	}
+	return &expr{leaf: &p}
+}
+
+func joinExpr(r *hx.Rand, op string, es []*expr) *expr {
+	// binary nodes in a random association (left-deep, right-deep, balanced): the analyzer flattens nested ANDs / ORs
+	for len(es) > 1 {
+		i := r.Intn(len(es) - 1)
+		n := &expr{op: op, l: es[i], r: es[i+1]}
+		es = append(append(append([]*expr{}, es[:i]...), n), es[i+2:]...)
+	}
+	return es[0]
+}
+
+// conjExpr: a conjunction of OR groups (each: 2-3 disjuncts, a disjunct is a leaf or a conjunction of two leaves or, at
+// depth, a nested conjunction of OR groups) and plain leaves, mostly on the leading column
+func (h *harness) conjExpr(ct colType, ncols int, depth int) *expr {
+	r := h.r
+	pickCol := func() int {
+		if ncols == 1 || r.Chance(3, 4) {
+			return 0
+		}
+		return 1 + r.Intn(ncols-1)
+	}
+	var parts []*expr
+	for g := r.Range(1, 3); g > 0; g-- {
+		col := pickCol()
+		var ds []*expr
+		for k := r.Range(2, 3); k > 0; k-- {
+			switch {
+			case depth > 0 && r.Chance(1, 8):
+				ds = append(ds, h.conjExpr(ct, ncols, depth-1))
+			case r.Chance(1, 5):
+				ds = append(ds, joinExpr(r, "and", []*expr{h.leafExpr(ct, ncols, col), h.leafExpr(ct, ncols, pickCol())}))
+			default:
+				ds = append(ds, h.leafExpr(ct, ncols, col))
+			}
+		}
+		parts = append(parts, joinExpr(r, "or", ds))
+	}
+	for k := r.Range(0, 2); k > 0; k-- {
+		parts = append(parts, h.leafExpr(ct, ncols, pickCol()))
+	}
+	// shuffle
+	for i := len(parts) - 1; i > 0; i-- {
+		j := r.Intn(i + 1)
+		parts[i], parts[j] = parts[j], parts[i]
+	}
+	return joinExpr(r, "and", parts)
+}
+
+// randExpr: unstructured AND / OR tree
+func (h *harness) randExpr(ct colType, ncols int, depth int) *expr {
+	r := h.r
+	if depth == 0 || r.Chance(1, 3) {
+		return h.leafExpr(ct, ncols, r.Intn(ncols))
+	}
+	return &expr{op: hx.Pick(r, []string{"and", "or"}), l: h.randExpr(ct, ncols, depth-1), r: h.randExpr(ct, ncols, depth-1)}
+}
+
+func (h *harness) scanCases(n int) {
+	// corpus: mutually exclusive OR groups with a further restriction, adjacent / overlapping / nested groups
+	il := func(v int64) lit { return lit{coeff: big.NewInt(v)} }
+	lf := func(op string, col int, vs ...int64) *expr {
+		p := pred{op: op, col: col}
+		for _, v := range vs {
+			p.ks = append(p.ks, il(v))
+		}
+		return &expr{leaf: &p}
+	}
+	or := func(a, b *expr) *expr { return &expr{op: "or", l: a, r: b} }
+	and := func(a, b *expr) *expr { return &expr{op: "and", l: a, r: b} }
+	g12, g56, g78, g26 := or(lf("eq", 0, 1), lf("eq", 0, 2)), or(lf("eq", 0, 5), lf("eq", 0, 6)), or(lf("eq", 0, 7), lf("eq", 0, 8)), or(lf("eq", 0, 2), lf("eq", 0, 6))
+	for _, ct := range colTypes {
+		for _, e := range []*expr{
+			and(g12, g56),
+			and(and(g12, g56), lf("gt", 0, 0)),
+			and(lf("gt", 0, 0), and(g12, g56)),
+			and(and(g12, g56), g78),
+			and(g12, and(g56, g78)),
+			and(and(g12, g26), lf("gt", 0, 0)),
+			and(and(or(lf("lt", 0, 2), lf("isnull", 0)), or(lf("eq", 0, 4), lf("gt", 0, 6))), lf("neq", 0, 3)),
+			and(g12, lf("gt", 0, 5)),
+			or(and(lf("gt", 0, 1), lf("lt", 0, 1)), g56),
+			or(and(g12, g56), lf("eq", 0, 3)),
+		} {
+			h.scanCase(ct, 1, e)
+		}
+		h.scanCase(ct, 2, and(and(and(g12, g56), lf("isnotnull", 0)), lf("eq", 1, 1)))
+		h.scanCase(ct, 2, and(and(g12, or(lf("eq", 1, 1), lf("eq", 1, 2))), or(lf("eq", 1, 3), lf("eq", 0, 2))))
+	}
+	for i := 0; i < n; i++ {
+		ct := hx.Pick(h.r, colTypes)
+		ncols := 1 + h.r.Intn(2)
+		if h.r.Chance(1, 8) {
+			ncols = 3
+		}
+		e := h.randExpr(ct, ncols, 3)
+		if e.leaf != nil || h.r.Chance(3, 4) {
+			// (a root leaf is the `build` stream's business; the one-column IN fast path is not modelled)
+			e = h.conjExpr(ct, ncols, 1)
+		}
+		h.scanCase(ct, ncols, e)
+	}
+}
+
+// ---------------------------------------------------------------------------------------------
 // engine level
 
 type tableShape struct {
@@ -713,7 +1160,7 @@ type tableShape struct {
 	notNull bool
 }
 
-func (h *harness) engineCases(n int) {
+func (h *harness) engineCases(n, nOr int) {
 	r := h.r
 	shapes := []string{
 		"KEY ia (a)",
@@ -726,7 +1173,11 @@ func (h *harness) engineCases(n int) {
 	cvals := []string{"NULL", "0", "1", "2", "3", "254", "255"}
 	e := eng.New("d")
 	ctx := e.Ctx()
-	type tbl struct{ t, u string }
+	type tbl struct {
+		t, u string
+		idx  [][]string // the columns of each secondary index
+	}
+	shapeIdx := [][][]string{{{"a"}}, {{"a", "b"}}, {{"a", "b", "c"}}, {{"b"}, {"c", "a"}}, {{"a", "b"}}}
 	var tbls []tbl
 	for i, sh := range shapes {
 		t, u := fmt.Sprintf("t%d", i), fmt.Sprintf("u%d", i)
@@ -747,7 +1198,7 @@ func (h *harness) engineCases(n int) {
 		}
 		ins := strings.Join(rows, ",")
 		e.MustExec(ctx, fmt.Sprintf("INSERT INTO %s VALUES %s", t, ins), fmt.Sprintf("INSERT INTO %s VALUES %s", u, ins))
-		tbls = append(tbls, tbl{t, u})
+		tbls = append(tbls, tbl{t, u, shapeIdx[i]})
 	}
 	typeOf := func(col string) colType {
 		if col == "c" {
@@ -827,10 +1278,7 @@ func (h *harness) engineCases(n int) {
 			return fmt.Sprintf("%s %s %s", col, hx.Pick(r, []string{"=", "<>", "<", "<=", ">", ">=", "=", "<", ">"}), litFor(col).sqlText())
 		}
 	}
-	for i := 0; i < n; i++ {
-		tb := hx.Pick(r, tbls)
-		feats = map[string]bool{}
-		where := genPred(2)
+	runQuery := func(kind string, tb tbl, where string) {
 		var fl []string
 		for f := range feats {
 			fl = append(fl, f)
@@ -841,11 +1289,11 @@ func (h *harness) engineCases(n int) {
 		rt := e.Query(e.Ctx(), qt)
 		ru := e.Query(e.Ctx(), qu)
 		ct, cu := eng.Canon(rt, false), eng.Canon(ru, false)
-		ex := e.Query(e.Ctx(), "EXPLAIN "+qt)
+		ex := e.Query(e.Ctx(), "EXPLAIN FORMAT=TREE "+qt)
 		usesIndex := false
-		for _, row := range ex.Rows {
+		for _, row := range ex.Raw { // (plan text; Rows holds canonical hex text)
 			for _, c := range row {
-				if strings.Contains(c, "IndexedTableAccess") {
+				if strings.Contains(fmt.Sprint(c), "IndexedTableAccess") {
 					usesIndex = true
 				}
 			}
@@ -863,16 +1311,19 @@ func (h *harness) engineCases(n int) {
 		if len(fl) > 0 {
 			obs = "region"
 		}
-		id := h.out.Case(hx.List("engq", hx.HexS(qt), hx.ListOf(fl, func(s string) string { return s })), obs, usesIndex && len(rt.Rows) > 0)
-		h.out.Stat("engq")
+		id := h.out.Case(hx.List("engq", hx.HexS(qt), hx.ListOf(fl, func(s string) string { return s })), obs, usesIndex && (len(rt.Rows) > 0 || kind == "engor"))
+		h.out.Stat(kind)
 		if usesIndex {
-			h.out.Stat("engq:index-used")
+			h.out.Stat(kind + ":index-used")
+			if len(rt.Rows) == 0 {
+				h.out.Stat(kind + ":index-used:no-rows")
+			}
 		}
 		if rt.Class() != "ok" {
-			h.out.Stat("engq:" + rt.Class())
+			h.out.Stat(kind + ":" + rt.Class())
 		}
 		for _, f := range fl {
-			h.out.Stat("engq:feature:" + f)
+			h.out.Stat(kind + ":feature:" + f)
 		}
 		if res != "same" {
 			region := "-"
@@ -884,6 +1335,94 @@ func (h *harness) engineCases(n int) {
 			}
 			h.out.OracleFail(id, region, fmt.Sprintf("%s → %s %s; the index-free copy → %s", qt, trunc(ct), rt.Panic, trunc(cu)))
 		}
+	}
+	for i := 0; i < n; i++ {
+		tb := hx.Pick(r, tbls)
+		feats = map[string]bool{}
+		runQuery("engq", tb, genPred(2))
+	}
+
+	// (e) conjunctions of OR groups on an index prefix + plain comparisons: the rangeBuildAnd / Intersect path of the
+	// analyzer with mutually exclusive, adjacent, overlapping and nested groups. Integer literals of the column's value
+	// domain ±1 (IN lists: in-type integers only, so none of the listed IN regions applies).
+	dom := func(col string) []int {
+		if col == "c" {
+			return []int{0, 1, 2, 3, 4, 253, 254, 255}
+		}
+		return []int{-128, -127, -4, -3, -2, -1, 0, 1, 2, 3, 4, 125, 126, 127}
+	}
+	val := func(col string) string { return strconv.Itoa(hx.Pick(r, dom(col))) }
+	cmp := func(col string) string {
+		switch r.Intn(12) {
+		case 0:
+			return col + " IS NULL"
+		case 1:
+			a, b := hx.Pick(r, dom(col)), hx.Pick(r, dom(col))
+			if a > b {
+				a, b = b, a
+			}
+			return fmt.Sprintf("%s BETWEEN %d AND %d", col, a, b)
+		case 2:
+			return fmt.Sprintf("%s IN (%s, %s)", col, val(col), val(col))
+		case 3:
+			// fractional bound (not in an IN list)
+			return fmt.Sprintf("%s %s %s.5", col, hx.Pick(r, []string{"<", "<=", ">", ">="}), val(col))
+		case 4, 5, 6, 7:
+			return fmt.Sprintf("%s = %s", col, val(col))
+		default:
+			return fmt.Sprintf("%s %s %s", col, hx.Pick(r, []string{"<", "<=", ">", ">="}), val(col))
+		}
+	}
+	plain := func(col string) string {
+		switch r.Intn(6) {
+		case 0:
+			return col + " IS NOT NULL"
+		case 1:
+			return fmt.Sprintf("%s <> %s", col, val(col))
+		case 2:
+			return fmt.Sprintf("%s NOT IN (%s, %s)", col, val(col), val(col))
+		default:
+			return cmp(col)
+		}
+	}
+	for i := 0; i < nOr; i++ {
+		tb := hx.Pick(r, tbls)
+		ix := hx.Pick(r, tb.idx)
+		lead := ix[0]
+		other := func() string {
+			if len(ix) > 1 && r.Chance(2, 3) {
+				return ix[1+r.Intn(len(ix)-1)]
+			}
+			return hx.Pick(r, []string{"a", "b", "c"})
+		}
+		pickCol := func() string {
+			if r.Chance(3, 4) {
+				return lead
+			}
+			return other()
+		}
+		var parts []string
+		for g := r.Range(2, 3); g > 0; g-- {
+			col := pickCol()
+			var ds []string
+			for k := r.Range(2, 3); k > 0; k-- {
+				if r.Chance(1, 6) {
+					ds = append(ds, "("+cmp(col)+" AND "+cmp(pickCol())+")")
+				} else {
+					ds = append(ds, cmp(col))
+				}
+			}
+			parts = append(parts, "("+strings.Join(ds, " OR ")+")")
+		}
+		for k := r.Range(0, 2); k > 0; k-- {
+			parts = append(parts, plain(pickCol()))
+		}
+		for i := len(parts) - 1; i > 0; i-- {
+			j := r.Intn(i + 1)
+			parts[i], parts[j] = parts[j], parts[i]
+		}
+		feats = map[string]bool{}
+		runQuery("engor", tb, strings.Join(parts, " AND "))
 	}
 }
 
@@ -900,8 +1439,11 @@ func run(a hx.RunArgs) error {
 	out.Rule = "build: conjunctions of 1-5 leaf predicates (= <> < <= > >= IN NOT IN IS [NOT] NULL) over 1-3 columns of type TINYINT / TINYINT UNSIGNED / BIGINT, " +
 		"literals near 0 and near the type bounds ±2, integer, whole decimal (2.0) and fractional decimal (2.5, -0.25); single leaves over a literal grid first; " +
 		"filter/rtype: every pair of cuts over keys 0..2 × values NULL,-1..3; engq: random WHERE trees (depth ≤ 2, AND/OR/NOT, BETWEEN, <=>) on five index shapes vs an index-free copy; " +
-		"non-trivial: some test tuple satisfies the conjunction and some does not (build), the plan uses IndexedTableAccess and returns rows (engq)"
-	h := &harness{out: out, ctx: sql.NewEmptyContext(), r: hx.NewRand(a.Seed)}
+		"engq(engor): conjunctions of 2-3 OR groups (2-3 disjuncts: = < <= > >= BETWEEN IN IS NULL, fractional bounds, OR of ANDs) mostly on the leading column of an index + 0-2 plain comparisons, integer literals of the column's value domain; " +
+		"scan: the analyzer's buildRoot + buildRangeCollection on AND/OR trees over 1-3 columns (corpus of mutually exclusive / overlapping OR groups first, conjunctions of OR groups, random trees of depth ≤ 3); " +
+		"non-trivial: some test tuple satisfies the conjunction / filter and some does not (build, scan), the plan uses IndexedTableAccess and returns rows (engq), the plan uses IndexedTableAccess (engor)"
+	// (hx.NewRand(s+1) is hx.NewRand(s) shifted by one draw: fork, so that different seeds give unrelated streams)
+	h := &harness{out: out, ctx: sql.NewEmptyContext(), r: hx.NewRand(a.Seed).Fork()}
 
 	// corpus / exhaustive single leaves over a literal grid
 	for _, ct := range colTypes {
@@ -943,6 +1485,11 @@ func run(a hx.RunArgs) error {
 		}
 		h.buildCase(ct, ncols, ps)
 	}
-	h.engineCases(nEng)
+	nScan, nEngOr := 2500, 1200
+	if a.Thorough {
+		nScan, nEngOr = 60000, 30000
+	}
+	h.engineCases(nEng, nEngOr)
+	h.scanCases(nScan)
 	return nil
 }
